@@ -141,9 +141,16 @@ func modeC03(e *Env) {
 			l = logFromAbstractBases(e.R, cfgs[i%len(cfgs)], g2, []interface{}{"txxid", "rotate", "ddl", "txxid", "restart", "autorow", "stmtdml",
 				"rotate", "txcommit", "restart", "stmtdml", "txrollback"}, baseSets[i%len(baseSets)])
 		}
+		if i%10 == 7 {
+			// the stream starts under the empty file name (the master takes it as its first binlog): the labels carry the
+			// empty name until the first rotation, and every one of them is a valid place to resume from
+			l = logFromAbstractBases(e.R, cfgs[i%len(cfgs)], gp, []interface{}{"txxid", "ddl", "txcommit", "autorow", "stmtdml", "rotate", "txxid", "ddl"}, nil)
+			l.Files[0].Name = ""
+			l.Layout()
+		}
 		bs := l.Boundaries()
 		start := bs[0]
-		if i%4 == 3 {
+		if i%4 == 3 && i%10 != 7 {
 			start = bs[e.R.Intn(len(bs))]
 		}
 		RunStreamScenario(e.Rec, &StreamScenario{ID: i + 1, Fam: "c03", Log: l, Start: start, ServerID: 9,
@@ -932,6 +939,9 @@ func modeC08(e *Env) {
 		l := GenLog(e.R, cfgs[e.R.Intn(len(cfgs))], gp, nil)
 		a := defaultAttempt()
 		a.Scribble = i%2 == 0
+		if i%4 == 2 {
+			a.Scribble, a.ScribbleLate = false, true // everything is kept untouched until the stream has ended, then overwritten
+		}
 		if i%3 == 0 {
 			a.Pacing = "lockstep"
 		} else {
@@ -966,6 +976,39 @@ func modeC08(e *Env) {
 		}
 		id++
 		repeatedValues(e, id, cfgs[e.R.Intn(len(cfgs))], cols, "repeated-values")
+	}
+	// statements of one session (the same charset from statement to statement, one statement of another session in between),
+	// all kept until the stream has ended and then overwritten one after the other: what two statements share shows
+	for i := 0; i < e.N(2, 12); i++ {
+		cfg := cfgs[e.R.Intn(len(cfgs))]
+		l := &Log{Cfg: cfg}
+		gp := smallGP()
+		tables := []*Table{genTable(e.R, 100, gp)}
+		ts := uint32(1600000000)
+		f := &LogFile{Name: "mysql-bin.000001"}
+		l.Files = []*LogFile{f}
+		session := []int{33, 33, 8}
+		other := []int{8, 8, 8}
+		for k, kind := range []string{"ddl", "ddl", "stmtdml", "txxid", "ddl", "ddl", "stmtdml", "ddl"} {
+			u := genUnit(e.R, kind, tables, gp, &ts, cfg.Gtid)
+			for _, ev := range u.Evs {
+				if ev.K == "query" {
+					ev.CS = session
+					if k == 4 {
+						ev.CS = other
+					}
+					ev.SV = []byte{4, byte(ev.CS[0]), 0, byte(ev.CS[1]), 0, byte(ev.CS[2]), 0}
+				}
+			}
+			f.Units = append(f.Units, u)
+		}
+		l.Layout()
+		a := defaultAttempt()
+		a.ScribbleLate = i%2 == 0
+		a.Scribble = !a.ScribbleLate
+		id++
+		RunStreamScenario(e.Rec, &StreamScenario{ID: id, Fam: "c08", Log: l, Start: l.Boundaries()[0], ServerID: 21,
+			Attempts: []AttemptPlan{a}, Note: "one-session"})
 	}
 	// the same, walking every column shape (one per branch of the decoder: every width, every fraction length, every
 	// DECIMAL with whole and partial groups of digits on either side of the point, ...), so that a decoder path that
